@@ -3,11 +3,11 @@
 package alephium
 
 import (
-	"os"
 	"bytes"
 	"context"
 	"encoding/hex"
 	"fmt"
+	"os"
 	"sync"
 	"testing"
 	"time"
@@ -824,25 +824,25 @@ func genAlph(t *rapid.T, liveness bool) aCase {
 				{K: "advance", A: rapid.IntRange(0, 4).Draw(t, "n")}, {K: "reobserve", A: -1}}
 		}
 		return one(func() aOp {
-		switch k {
-		case "emit":
-			return aOp{K: k, A: rapid.IntRange(0, 63).Draw(t, "a"), B: rapid.OneOf(rapid.IntRange(0, 3), rapid.IntRange(0, 255)).Draw(t, "cl"), C: rapid.IntRange(0, 5).Draw(t, "payload"), D: rapid.IntRange(0, 100).Draw(t, "d")}
-		case "advance":
-			return aOp{K: k, A: rapid.OneOf(rapid.IntRange(0, 3), rapid.IntRange(0, 300)).Draw(t, "n")}
-		case "orphan":
-			return aOp{K: k, A: rapid.IntRange(0, 9).Draw(t, "tx"), B: rapid.IntRange(0, 1).Draw(t, "reinclude")}
-		case "burst":
-			return aOp{K: k, A: rapid.IntRange(0, 3).Draw(t, "n"), B: rapid.IntRange(0, 2).Draw(t, "cl"), C: rapid.IntRange(0, 2).Draw(t, "late"), D: rapid.IntRange(0, 50).Draw(t, "d")}
-		case "malformed":
-			return aOp{K: k, A: rapid.IntRange(0, 11).Draw(t, "kind")}
-		case "fault":
-			return aOp{K: k, A: rapid.IntRange(0, 6).Draw(t, "what"), B: rapid.IntRange(0, 1).Draw(t, "n")}
-		case "pagesize":
-			return aOp{K: k, A: rapid.IntRange(0, 4).Draw(t, "size")}
-		case "countahead":
-			return aOp{K: k, A: rapid.IntRange(0, 1).Draw(t, "n")}
-		}
-		return aOp{K: "reobserve", A: rapid.IntRange(-1, 9).Draw(t, "tx")}
+			switch k {
+			case "emit":
+				return aOp{K: k, A: rapid.IntRange(0, 63).Draw(t, "a"), B: rapid.OneOf(rapid.IntRange(0, 3), rapid.IntRange(0, 255)).Draw(t, "cl"), C: rapid.IntRange(0, 5).Draw(t, "payload"), D: rapid.IntRange(0, 100).Draw(t, "d")}
+			case "advance":
+				return aOp{K: k, A: rapid.OneOf(rapid.IntRange(0, 3), rapid.IntRange(0, 300)).Draw(t, "n")}
+			case "orphan":
+				return aOp{K: k, A: rapid.IntRange(0, 9).Draw(t, "tx"), B: rapid.IntRange(0, 1).Draw(t, "reinclude")}
+			case "burst":
+				return aOp{K: k, A: rapid.IntRange(0, 3).Draw(t, "n"), B: rapid.IntRange(0, 2).Draw(t, "cl"), C: rapid.IntRange(0, 2).Draw(t, "late"), D: rapid.IntRange(0, 50).Draw(t, "d")}
+			case "malformed":
+				return aOp{K: k, A: rapid.IntRange(0, 11).Draw(t, "kind")}
+			case "fault":
+				return aOp{K: k, A: rapid.IntRange(0, 6).Draw(t, "what"), B: rapid.IntRange(0, 1).Draw(t, "n")}
+			case "pagesize":
+				return aOp{K: k, A: rapid.IntRange(0, 4).Draw(t, "size")}
+			case "countahead":
+				return aOp{K: k, A: rapid.IntRange(0, 1).Draw(t, "n")}
+			}
+			return aOp{K: "reobserve", A: rapid.IntRange(-1, 9).Draw(t, "tx")}
 		}())
 	})
 	for _, g := range rapid.SliceOfN(op, 1, 20).Draw(t, "ops") {
